@@ -61,6 +61,14 @@ type blockCase struct {
 	Dep      bool     `json:"dep,omitempty"` // every transaction write-locks one shared account and touches it
 	Txs      []txSpec `json:"txs"`
 	Seed     int64    `json:"seed"` // drives sleeps / yields inside handlers
+	// adversarial scheduling: every log call on a failure path ("Fail to …") made by
+	// the executor blocks for this long and then yields (a slow log sink / a
+	// descheduled worker between two statements)
+	LogDelayUs int `json:"log_delay_us,omitempty"`
+	// Gate: the handler of a finally failing transaction does not return from
+	// Dispose before every other transaction of the block has finished executing
+	// (bounded wait), so the failing worker is the last one to leave its loop
+	Gate bool `json:"gate,omitempty"`
 	Reps     int      `json:"reps,omitempty"`
 }
 
@@ -134,7 +142,41 @@ func (t *htx) GetHandler(cm contract.ContractManager) (transaction.Handler, erro
 	return &hh{tx: t}, nil
 }
 
-type hh struct{ tx *htx }
+type hh struct {
+	tx      *htx
+	attempt int
+	kind    string
+}
+
+// slowLogger stalls the calling goroutine on failure-path messages of the executors
+// ("Fail to execute transaction …", "Fail to revert status…", "Fail to get handler…").
+type slowLogger struct {
+	log.Logger
+	delay time.Duration
+}
+
+func (l *slowLogger) stall(format string) {
+	if l.delay > 0 && strings.HasPrefix(format, "Fail") {
+		time.Sleep(l.delay)
+		runtime.Gosched()
+	}
+}
+func (l *slowLogger) Warnf(format string, args ...interface{}) {
+	l.stall(format)
+	l.Logger.Warnf(format, args...)
+}
+func (l *slowLogger) Errorf(format string, args ...interface{}) {
+	l.stall(format)
+	l.Logger.Errorf(format, args...)
+}
+func (l *slowLogger) Debugf(format string, args ...interface{}) {
+	l.stall(format)
+	l.Logger.Debugf(format, args...)
+}
+func (l *slowLogger) Infof(format string, args ...interface{}) {
+	l.stall(format)
+	l.Logger.Infof(format, args...)
+}
 
 func (h *hh) Prepare(ctx contract.Context) (state.WorldContext, error) {
 	h.tx.b.prepared.Add(1)
@@ -195,11 +237,14 @@ func (h *hh) Execute(ctx contract.Context, wcs state.WorldSnapshot, estimate boo
 	}
 	jitter(b.bc.Seed, t.idx, attempt, 1)
 	sc := b.bc.Txs[t.idx].Script
+	h.attempt = attempt
 	if attempt >= len(sc) {
 		b.overrun.Store(true)
+		h.kind = "fp"
 		return nil, fmt.Errorf("script overrun")
 	}
 	k := sc[attempt]
+	h.kind = k
 	mkReceipt := func() txresult.Receipt {
 		r := txresult.NewReceipt(ctx.Database(), ctx.Revision(), t.to)
 		r.SetResult(module.StatusSuccess, big.NewInt(int64(16*t.idx+attempt)), big.NewInt(0), nil)
@@ -216,7 +261,37 @@ func (h *hh) Execute(ctx contract.Context, wcs state.WorldSnapshot, estimate boo
 	return nil, scriptedErr(k)
 }
 
-func (h *hh) Dispose() { h.tx.disposes.Add(1) }
+func (h *hh) Dispose() {
+	t := h.tx
+	b := t.b
+	t.disposes.Add(1)
+	if !b.bc.Gate || h.kind == "" || kindOk(h.kind) {
+		return
+	}
+	if kindRetryable(h.kind) && h.attempt < service.VerifC10RetryCount {
+		return // will be retried
+	}
+	// terminal failure of this transaction: let everybody else finish first (bounded)
+	deadline := time.Now().Add(60 * time.Millisecond)
+	for time.Now().Before(deadline) {
+		settled := true
+		for _, o := range b.txs {
+			if o == t {
+				continue
+			}
+			_, _, want := scriptedResult(b.bc.Txs[o.idx].Script, service.VerifC10RetryCount)
+			if int(o.execs.Load()) < want || o.disposes.Load() < o.execs.Load() {
+				settled = false
+				break
+			}
+		}
+		if settled {
+			time.Sleep(time.Millisecond) // they still have to store the receipt and commit
+			return
+		}
+		time.Sleep(200 * time.Microsecond)
+	}
+}
 
 // transaction list
 type txList struct {
@@ -312,7 +387,11 @@ func runBlock(bc0 *blockCase) observation {
 	dbase := db.NewMapDB()
 	p := &plt{Platform: basic.Platform}
 	ch := &chain{level: bc.Level}
-	env := service.VerifC10NewEnv(dbase, ch, p, logger(), common.NewBlockInfo(1, 1000))
+	var lg log.Logger = logger()
+	if bc.LogDelayUs > 0 {
+		lg = &slowLogger{Logger: lg, delay: time.Duration(bc.LogDelayUs) * time.Microsecond}
+	}
+	env := service.VerifC10NewEnv(dbase, ch, p, lg, common.NewBlockInfo(1, 1000))
 	b := &block{bc: bc, shared: addrOf(0xee, 0).ID()}
 	for i := range bc.Txs {
 		b.txs = append(b.txs, &htx{b: b, idx: i, from: addrOf(0xaa, i), to: addrOf(0xbb, i), id: []byte{0xc1, byte(i >> 8), byte(i)}})
@@ -549,7 +628,9 @@ func caseKey(bc *blockCase) string {
 		S bool
 		D bool
 		T []txSpec
-	}{bc.Mode, bc.Level, bc.Skipping, bc.Dep, bc.Txs})
+		G bool
+		A bool
+	}{bc.Mode, bc.Level, bc.Skipping, bc.Dep, bc.Txs, bc.Gate, bc.LogDelayUs > 0})
 	return string(b)
 }
 
@@ -673,6 +754,46 @@ func gen(c *hxlib.Ctx) {
 			}
 		}
 	}
+	// (1b) adversarial schedules: the failing transaction is the last or the second to last
+	// one, and the worker is stalled on its failure path (log call) and/or made the last
+	// worker to leave its loop, so that the dispatcher is already inside Realize() / past it
+	// when the failure is being reported.  Levels 2..8.
+	advKinds := []failKind{
+		{"fatal-plain", []string{"fp", "ok", "ok", "ok"}},
+		{"exhausted", []string{"xf", "rr", "xf", "ok"}},
+		{"plt-fatal", []string{"fc@p", "ok", "ok", "ok"}},
+		{"retry-then-fatal", []string{"rr", "fk", "ok", "ok"}},
+	}
+	delays := []int{2000, 5000, 10000, 20000, 40000}
+	for _, n := range []int{2, 5} {
+		for _, back := range []int{1, 2} {
+			pos := n - back
+			if pos < 0 {
+				continue
+			}
+			for _, fk := range advKinds {
+				for _, lv := range levels {
+					bc := &blockCase{Mode: "conc", Level: lv, Seed: r.Int63n(1 << 40), Reps: 1}
+					if r.Intn(3) == 0 {
+						bc.Mode = "txs"
+					}
+					bc.LogDelayUs = delays[r.Intn(len(delays))]
+					if r.Intn(16) == 0 {
+						bc.LogDelayUs = 100000 + r.Intn(200000)
+					}
+					bc.Gate = r.Intn(2) == 0
+					for i := 0; i < n; i++ {
+						sc := okScript()
+						if i == pos {
+							sc = append([]string(nil), fk.script...)
+						}
+						bc.Txs = append(bc.Txs, txSpec{Script: sc})
+					}
+					emit(c, "adversarial/"+fk.name, bc, r)
+				}
+			}
+		}
+	}
 	// (2) all-success blocks and the empty block, every mode
 	for _, n := range []int{0, 1, 2, 5, 9, 17} {
 		for _, lv := range append([]int{1}, levels...) {
@@ -760,6 +881,7 @@ func main() {
 		Preamble: "From Goloop Require Import Model_BlockExec.\nFrom GoloopRun Require Import Run_C10.",
 		Rule: "blocks of scripted transactions run through the real executeTxs/executeTxsSequential/executeTxsConcurrent: " +
 			"(1) every position x 11 failure kinds (retry then success, retries exhausted, three non-retryable error classes, failure delivered by Execute or by OnTransactionEnd) x sequential + concurrency levels 2..8, blocks of 1/3/6 transactions, each run under 2 jitter seeds; " +
+			"(1b) adversarial schedules: failing transaction last / second to last, levels 2..8, the failing worker stalled 2-300 ms inside every failure-path log call of the executor and/or held back until all other workers have finished, so that the dispatcher is already waiting in or past Realize(); " +
 			"(2) all-success and empty blocks; (3) random blocks of 1..10 transactions with several failing transactions and the skip-transaction branch; " +
 			"handlers sleep/yield pseudo-randomly so the Go scheduler produces different interleavings; " +
 			"non-trivial = some transaction does not succeed at its first attempt or is skipped; distinct = distinct (mode, level, flags, scripts)",
